@@ -13,7 +13,7 @@ import numpy as np
 from hypothesis import strategies as st
 
 from .. import arrays as A
-from ..core import MachineSpec, Reject, SubCheck, Violation, rejecting, rel_err
+from ..core import MachineSpec, dict_strategy, Reject, SubCheck, Violation, rejecting, rel_err
 from ..oracle import embed, ptrace
 
 RULE = ("histories (<=14/25 steps) on one open-boundary MPS (L 2-7, bond 1-4, phys dim 2-3, real/complex, normalised or "
@@ -140,7 +140,7 @@ def gate_matrix(seed, k, d, kind, dtype):
 
 # ---------------------------------------------------------------------------
 
-init_strategy = st.fixed_dictionaries({
+init_strategy = dict_strategy({
     "L": st.integers(2, 7), "bond": st.integers(1, 4), "d": st.sampled_from([2, 2, 2, 3]),
     "dtype": st.sampled_from(["complex128", "complex128", "float64"]), "seed": st.integers(0, 2**31 - 1),
     "normalize": st.booleans(), "start": st.sampled_from(["none", "calc", "canon"]), "where": st.integers(0, 6),
